@@ -2491,3 +2491,7 @@ mod tests {
         assert_eq!(boundary, Some(value + GROUP_DATA_CTR_EPOCH));
     }
 }
+
+#[cfg(any(kani, verif_replay))]
+#[path = "/verif/kani/session.rs"]
+pub(crate) mod verif_kani_session;
